@@ -229,6 +229,44 @@ def touches_representation(body):
     return out
 
 
+def inline_bytes_idiom(body):
+    """every use of an inline array ([u8; 8] payload of Hex::Bytes) in the body is `array[..len]` / `array[0..len]` with len the
+    length field of the *same* Hex value; the array is never copied, compared, unsized or indexed otherwise"""
+    approved = set()
+    for site, base, idx, how in index_accesses(body):
+        if not is_inline_array(base):
+            continue
+        h = hex_of(base)
+        i = strip_load(idx)
+        ok = i[0] == "agg" and ((i[1] == "RangeTo" and is_inline_len(dict(i[3])["end"], h)) or
+                                (i[1] == "Range" and strip_load(dict(i[3])["start"]) == ("const", 0) and is_inline_len(dict(i[3])["end"], h)))
+        if not ok or how != "call":
+            return False
+        approved.add(site)
+    for site, kind, s in body.sites():
+        if kind == "term" and s["k"] == "call":
+            if site in approved:
+                continue
+            for a in body.call_args(s, site):
+                if is_inline_array(deref_addr(body, a)) or is_inline_array(a):
+                    return False
+        elif kind == "stmt" and s["k"] == "assign":
+            rv = s["rv"]
+            if rv["k"] in ("ref", "rawptr"):
+                continue            # binding `a` of the pattern `Bytes(a, n)`
+            try:
+                e = body.expr_rvalue(rv, site)
+            except Exception:
+                return False
+            if rv["k"] == "cast" and len(e) > 2 and is_inline_array(e[2]):
+                return False
+            if rv["k"] == "use" and is_inline_array(e):
+                return False
+            if rv["k"] == "aggregate" and any(is_inline_array(x[1]) if isinstance(x, tuple) and len(x) == 2 else False for x in (e[3] if len(e) > 3 else ())):
+                return False
+    return True
+
+
 def hx2(F, R):
     n = 0
     for name, trait in ENCAPSULATED:
@@ -243,6 +281,10 @@ def hx2(F, R):
             R.analysed(bb, sum(1 for _ in bb.sites()))
             bad += [(bb, s, w) for s, w in touches_representation(bb)]
         n += 1
+        if bad and all(inline_bytes_idiom(bb) for bb in bodies):
+            # the function spells out what bytes() does: the inline array is only ever used cut at its own length field
+            R.ok("HX2", b.where(), "%s matches on the representation but uses the inline array only as array[..len] of the same value" % label)
+            continue
         if bad:
             bb, s, w = bad[0]
             R.bad("HX2", "HX2/%s/reads-representation" % label, bb.where(s),
